@@ -540,6 +540,8 @@ def ensure_type(u, name):
     if name == 'opt_size':
         u.cty(bs2c.Ty('std::optional', [bs2c.Ty('unsigned long')]))
         return
+    if name.startswith('bs_'):
+        return      # a ghost type of rt/spec.h
     for key in list(u.records):
         try:
             t = u.canon(bs2c.parse_type(key.replace(',', ', ')))
@@ -1415,6 +1417,82 @@ def clause_of(r, o):
     return lm[ln][3] if ln in lm else (o.get('desc') or '')
 
 
+def closure_of(sel, blocks, tier):
+    """the contract blocks of every function the selected blocks use through its contract (`replace`), transitively:
+    a proof that replaces a call by a contract is only as good as that contract (DESIGN.md section 7)"""
+    byname = {(b.name, b.mode): b for b in blocks if b.kind == 'function'}
+    out, seen, todo = [], {id(b) for b in sel}, list(sel)
+    while todo:
+        b = todo.pop()
+        for rname in b.replace:
+            cb = byname.get((rname, b.mode)) or byname.get((rname, 'EXACT'))
+            if cb is None or getattr(cb, 'assumed', None) or id(cb) in seen:
+                continue
+            if not (tier == 'thorough' or cb.tier == 'quick'):
+                continue
+            seen.add(id(cb))
+            out.append(cb)
+            todo.append(cb)
+            # the case twin of a callee belongs to its proof
+            tw = byname.get((cb.fn + '#case1', cb.mode))
+            if tw is not None and id(tw) not in seen and '#' not in cb.name:
+                seen.add(id(tw))
+                out.append(tw)
+    return out
+
+
+def bad_obligations(r, known):
+    """failing obligations of a block result that are not listed known findings"""
+    out = []
+    for o in r.obligations:
+        if o['status'] != 'SUCCESS':
+            text = '%s|%s|%s' % (r.block.name, o['id'], clause_of(r, o))
+            if not any(x[1].search(text) for x in known):
+                out.append(o)
+    return out
+
+
+def inline_fallback(failed, all_res, sel_ids, blocks, known, verbose):
+    """Helper contracts that no longer hold (blocks of the closure that failed): every block that used such a function
+    through its contract is decided again with the function INLINED instead.  Returns (extra results of selected blocks
+    that now fail or are undecided, notes).  A selected block that still verifies means the property does not depend on
+    the broken clause; a closure block that fails in turn is treated the same way one level up (at most 3 levels)."""
+    import copy
+    notes, out = [], []
+    inl = {r.block.fn for r in failed}
+    frontier = list(failed)
+    for level in range(3):
+        nxt = []
+        names = {r.block.fn for r in frontier}
+        deps = [r for r in all_res if any(x.split('#')[0] in names for x in getattr(r.block, 'replace_eff', r.block.replace))
+                and r.block.fn not in inl]
+        if not deps:
+            break
+        redo = []
+        for r in deps:
+            b2 = copy.copy(r.block)
+            b2.name = r.block.name + '#inl' if '#' not in r.block.name else r.block.name + '_inl'
+            b2.replace = [x for x in r.block.replace if x.split('#')[0] not in inl]
+            b2.inlined = sorted(x for x in r.block.replace if x.split('#')[0] in inl)
+            redo.append((r, b2))
+        res2 = run_blocks([b2 for _, b2 in redo], blocks, verbose=verbose, keep=True)
+        for (r, b2), r2 in zip(redo, res2):
+            is_sel = id(r.block) in sel_ids
+            if r2.status == 'proved' or (r2.status == 'failed' and not bad_obligations(r2, known)):
+                notes.append('%s verifies with %s inlined (their contracts no longer hold)' % (r.block.name, ', '.join(b2.inlined)))
+            elif is_sel:
+                out.append(r2)
+            else:
+                # a closure block that does not verify either: its contract is in doubt too, go one level up
+                inl.add(r.block.fn)
+                nxt.append(r2)
+                notes.append('%s does not verify with %s inlined: %s' % (r.block.name, ', '.join(b2.inlined), r2.reason[:120]))
+        frontier = nxt
+        if not frontier:
+            break
+    return out, notes
+
+
 def check_property(pid, tier, blocks, verbose=True):
     t0 = time.time()
     sel = [b for b in blocks if (pid in b.tags or (pid == 'C09' and b.kind == 'function'))
@@ -1422,8 +1500,23 @@ def check_property(pid, tier, blocks, verbose=True):
     if not sel:
         print('UNDECIDED: no contract block states %s' % pid)
         return 2
-    res = run_blocks(sel, blocks, verbose=verbose, keep=True)
+    clos = [] if pid == 'C09' else closure_of(sel, blocks, tier)
+    clos_ids = {id(b) for b in clos}
+    sel_ids = {id(b) for b in sel}
+    res = run_blocks(sel + clos, blocks, verbose=verbose, keep=True)
     known = load_known()
+    # closure blocks whose contract no longer holds: decide the blocks that used them again with those functions inlined
+    stale_notes, stale_failed = [], []
+    cl_failed = [r for r in res if id(r.block) in clos_ids and r.status == 'failed' and bad_obligations(r, known)]
+    cl_und = [r for r in res if id(r.block) in clos_ids and r.status == 'undecided']
+    if cl_failed:
+        extra, stale_notes = inline_fallback(cl_failed, res, sel_ids, blocks, known, verbose)
+        stale_failed = cl_failed
+        for n_ in stale_notes:
+            print('NOTE: ' + n_)
+        # the failing closure blocks themselves are reported by the checks of the properties their clauses are tagged with;
+        # here they count through the selected blocks that depend on them
+        res = [r for r in res if r not in cl_failed] + extra
     undecided = [r for r in res if r.status == 'undecided']
     bounded_blocks = [r for r in res if r.status == 'bounded']
     violations, knowns = [], []
@@ -1435,6 +1528,10 @@ def check_property(pid, tier, blocks, verbose=True):
         solver_time += getattr(r, 'solver_s', 0.0)
         for o in r.obligations:
             mine = pid in o['tags'] or 'support' in o['tags'] or (pid == 'C09' and 'C09' in o['tags'])
+            if id(r.block) in clos_ids:
+                mine = True      # the contract of a function this property's proofs use in place of its body
+            if getattr(r.block, 'inlined', None) and o['status'] != 'SUCCESS':
+                mine = True      # decided again with a helper inlined because the helper's contract no longer holds
             if not mine:
                 continue
             if r.status == 'bounded':
@@ -1497,6 +1594,10 @@ def check_property(pid, tier, blocks, verbose=True):
             'solver_wall_s': round(solver_time, 1),
             'solver_wall_note': 'sum over blocks of the time during which a solver portfolio (cvc5 and z3 side by side) of that block was running; blocks run in parallel, so this exceeds the wall time of the check',
             'undecided_blocks': [r.block.name for r in undecided],
+            'closure_blocks': sorted(b.name for b in clos),
+            'closure_note': 'closure_blocks are the contracts of the functions this property\'s blocks use in place of their bodies (replace), transitively; their obligations are counted as supporting obligations of this property',
+            'stale_helper_contracts': [{'block': r.block.name, 'failed': [o['id'] for o in bad_obligations(r, known)][:8]} for r in stale_failed],
+            'stale_helper_notes': stale_notes,
             'bounded_standins': [{'block': r.block.name, 'bound': r.block.bounded, 'obligations_checked_in_the_bound': len(r.obligations),
                                   'note': 'NOT counted in obligations/discharged: a bounded check, not a proof'} for r in bounded_blocks],
             'known_findings': [{'obligation': o['id'], 'what': what} for r, o, what in knowns],
